@@ -56,6 +56,29 @@ PROPS = {
                 "strategy on do_yield/do_resume/set_thread_state/set_active_state/scheduling_loop.",
         "required_probes": ["mech0", "mech1", "mech5", "mech6"],
     },
+    "C10": {
+        "quick_runs": 5000, "thorough_runs": 300000, "seed": 10000001,
+        "rule": "C10 programs: default pool + 0-2 extra pools (1-3 workers, own policy) created through the resource partitioner; "
+                "2-30 submissions (schedule|then, execute, transfer_just, continues_on between pools, bulk, hinted tasks, "
+                "std_thread_scheduler) from main, from tasks and from OS threads; every callable records pool, worker and "
+                "whether it runs inside the submitting call; hinted normal-priority tasks on static pools check every phase.",
+        "required_probes": ["continues_on", "bulk", "std_thread", "hinted_phase_on_static_pool"],
+    },
+    "C11": {
+        "quick_runs": 5000, "thorough_runs": 300000, "seed": 11000001,
+        "rule": "C11 programs: bulk(sender, n, f) on the pool scheduler for n in {0,1,2,w-1,w,w+1,4w+-1,8w+-1,16w,2^k+-1, random <= 5000}, "
+                "shape types int/unsigned/long/size_t/long long (short shapes do not compile on the scheduler path), predecessor via transfer_just / schedule+let_value / just+continues_on "
+                "(values: an integer and a move-only token), 0-3 throwing indices, hints and priorities, a yielding index.",
+        "required_probes": ["bulk.n0", "bulk.value", "bulk.error", "bulk.type4", "bulk.pred2"],
+    },
+    "C19": {
+        "quick_runs": 4000, "thorough_runs": 250000, "seed": 19000001,
+        "rule": "C19 histories: default pool + victim pool (2-5 workers, any policy, elasticity on; a control sub-workload without "
+                "elasticity) x suspend/resume of single processing units and of the whole pool issued from tasks of the other pool "
+                "and from OS threads, concurrently with hinted and unhinted submissions and yielding tasks; refused operations "
+                "(no elasticity, pool suspending itself) must report their error and leave the workers running.",
+        "required_probes": ["suspend_pu", "resume_pu", "suspend_pool", "resume_pool", "refused.no_elasticity", "refused.self_suspend", "tasks"],
+    },
     "C13": {
         "quick_runs": 6000, "thorough_runs": 400000, "seed": 13000001,
         "kf_subs": {"kf_shared_priority": 32, "kf_yield_noexcept": 16},
